@@ -366,6 +366,33 @@ class Mini:
     def bind(self, node, closure=None):
         return _Func(self, node, closure)
 
+    def bind_module(self, tree):
+        """Make the module-level definitions of the interpreted module
+        available: functions are bound from the tree; simple assignments
+        (``NAME = <expression>``, in source order) are evaluated when their
+        value lies inside the interpreted fragment – literals, displays of
+        literals, arithmetic on earlier constants.  Names the harness models
+        itself keep their model value; anything that cannot be evaluated is
+        left undefined (a later use fails closed)."""
+        for st in tree.body:
+            if isinstance(st, ast.FunctionDef):
+                self.g[st.name] = self.bind(st)
+        for st in tree.body:
+            if isinstance(st, ast.Assign) and len(st.targets) == 1 \
+                    and isinstance(st.targets[0], ast.Name):
+                name, value = st.targets[0].id, st.value
+            elif isinstance(st, ast.AnnAssign) and st.value is not None \
+                    and isinstance(st.target, ast.Name):
+                name, value = st.target.id, st.value
+            else:
+                continue
+            if name in self.g:
+                continue
+            try:
+                self.g[name] = self.expr(value, {}, set())
+            except (MiniError, ModelFault):
+                pass
+
     # ------------------------------------------------------------------
     def call(self, func, args=(), kwargs=None, closure=None):
         kwargs = dict(kwargs or {})
